@@ -43,7 +43,7 @@ for d in sorted(glob.glob(ROOT + '/seeded/C*')):
         'clause_broken': squash(clause),
         'needs_in_order_to_manifest': squash(needs),
         'files': sorted(f for f in os.listdir(d) if f != 'meta.json'),
-        'origin': 'independent sub-agent given only the property text and a scratch worktree (%s round: told which ideas had been used before and asked for different mechanisms); rebased by hand where patch.original.diff exists' % ({'C':'second','D':'second','E':'third','F':'third','G':'fourth','H':'fourth','I':'fifth','J':'fifth'}.get(name[-1],'second')),
+        'origin': 'independent sub-agent given only the property text and a scratch worktree (%s round: told which ideas had been used before and asked for different mechanisms); rebased by hand where patch.original.diff exists' % ({'C':'second','D':'second','E':'third','F':'third','G':'fourth','H':'fourth','I':'fifth','J':'fifth','K':'sixth','L':'sixth'}.get(name[-1],'second')),
     }
     for k in ('confirmation', 'detection'):
         if k in m:
